@@ -317,6 +317,44 @@ def _worker(job):
                                             repr((k_exons, blocks)), "%s expected %s" % (mp.gene_profile, exp)))
                 if len(known_t) >= 2 and len(read) >= 2:
                     res["nontrivial"] += 1
+    elif kind == "splitprofiles":
+        # NonOverlappingFeaturesProfileConstructor with the comparator the pipeline gives it (overlaps_at_least_when_overlap, minimal overlap md):
+        # features = disjoint segments (touching allowed, as produced by split_exons), reads = gapless blocks
+        n, part, nparts = payload
+        feats = all_lists(n)
+        reads = [l for l in feats if all(l[i][1] + 1 < l[i + 1][0] for i in range(len(l) - 1))]
+        idx = 0
+        for segs in feats:
+            for read in reads:
+                idx += 1
+                if idx % nparts != part:
+                    continue
+                res["cases"] += 1
+                if len(segs) >= 2 and len(read) >= 2:
+                    res["nontrivial"] += 1
+                for md in (1, 2, 3, 5):
+                    pc = lrp.NonOverlappingFeaturesProfileConstructor(list(segs), comparator=partial(common.overlaps_at_least_when_overlap, delta=md))
+                    mp = _call(res, "construct_profile", pc.construct_profile, list(read))
+                    if mp is None:
+                        continue
+                    res["split_profile_cases"] = res.get("split_profile_cases", 0) + 1
+                    bad = None
+                    for i, sg in enumerate(segs):
+                        inside = any(b[0] <= sg[0] and sg[1] <= b[1] for b in read)
+                        ov = max([min(sg[1], b[1]) - max(sg[0], b[0]) + 1 for b in read] + [0])
+                        v = mp.gene_profile[i]
+                        if inside and v != 1:
+                            bad = "segment %s lies inside a read block but is marked %d" % (sg, v)
+                        elif ov >= md and v != 1:
+                            bad = "segment %s shares %d >= %d bases with a read block but is marked %d" % (sg, ov, md, v)
+                        elif v == 1 and ov == 0:
+                            bad = "segment %s is marked present but shares no base with the read" % (sg,)
+                    for j, b in enumerate(read):
+                        if any(b[0] <= sg[0] and sg[1] <= b[1] for sg in segs) and mp.read_profile[j] != 1:
+                            bad = "read block %s contains a whole segment but is marked %d" % (b, mp.read_profile[j])
+                    C._rec("construct_profile", bad is None, (segs, read, md), mp.gene_profile)
+                    if bad:
+                        res["viol"].append(("NonOverlapping.construct_profile:pipeline-comparator", repr((segs, read, md)), "%s; gene profile %s read profile %s" % (bad, mp.gene_profile, mp.read_profile)))
     elif kind == "random":
         seed, count = payload
         rng = random.Random(seed)
@@ -374,7 +412,7 @@ def run(chk, scratch):
     n_prof = 8 if thorough else 7
     chk.rule = ("exhaustive: all interval pairs over universe %d; all sorted disjoint (touching allowed) interval lists over universe %d "
                 "(x every position) ; all pairs of such lists over universe %d; all sets of <=%d distinct exons over universe %d for split_exons; "
-                "all pairs (known transcript, read) of non-touching exon lists over universe %d for isoform/read profiles (delta 0 and 1) and for the isoform profiles of the gene objects built from transcript models (GeneInfo.from_models / from_model, delta 0, 2, 6); "
+                "all pairs (known transcript, read) of non-touching exon lists over universe %d for isoform/read profiles (delta 0 and 1) (split-exon profiles also with the comparator the pipeline uses, minimal overlap 1, 2, 3, 5, over touching segments) and for the isoform profiles of the gene objects built from transcript models (GeneInfo.from_models / from_model, delta 0, 2, 6); "
                 "plus random large instances and the repository's own tests run with the contracts on. "
                 "non-trivial = inputs with >=2 intervals in at least one argument") % (n_single, n_single, n_pair, k_split, n_split, n_prof)
     jobs = [("pairs", n_single)]
@@ -390,6 +428,8 @@ def run(chk, scratch):
         jobs.append(("isoprofiles", (n_prof - 1, i, 24)))
     for i in range(32):
         jobs.append(("readprofiles", (n_prof, i, 32)))
+    for i in range(16):
+        jobs.append(("splitprofiles", (n_prof, i, 16)))
     nrand = 100000 if thorough else 4000
     for i in range(16):
         jobs.append(("random", (chk.seed * 101 + i, nrand // 16)))
@@ -401,6 +441,7 @@ def run(chk, scratch):
             chk.note(n=res["cases"])
             nontriv += res["nontrivial"]
             chk.count("model_gene_isoform_profiles_checked", res.get("model_gene_profiles", 0))
+            chk.count("split_profiles_with_pipeline_comparator", res.get("split_profile_cases", 0))
             for k, v in res["counts"].items():
                 counts[k] = counts.get(k, 0) + v
             for k, v in res["shapes"].items():
@@ -456,5 +497,6 @@ def run(chk, scratch):
               "split_exons", "sum_intervals_to_point", "FeatureProfiles.set_profiles", "construct_intron_profile",
               "construct_profile"):
         chk.inconclusive_if(counts.get(f, 0) == 0, "contract on %s never evaluated" % f)
+    chk.inconclusive_if(chk.extra.get("split_profiles_with_pipeline_comparator", 0) == 0, "split-exon profiles with the pipeline's comparator never built")
     chk.inconclusive_if(chk.extra.get("model_gene_isoform_profiles_checked", 0) == 0, "no isoform profile of a gene built from transcript models checked")
     chk.min_nontrivial = 1000
